@@ -1529,7 +1529,20 @@ def convert_from_interleaved(args):
     eq = ",".join("".join(symbol_map[ix] for ix in term) for term in inputs)
     if nargs % 2 == 1:
         # has output specified
-        eq += f"->{''.join(symbol_map[ix] for ix in args[-1])}"
+        output = args[-1]
+    else:
+        # like numpy, the implicit output is the indices appearing once,
+        # sorted by *label* (symbols are allocated by order of appearance so
+        # we can't leave this to the sorting of symbols), ellipsis first
+        output = [ix for ix in find_output_from_inputs(inputs) if ix is not ...]
+        try:
+            output.sort()
+        except TypeError:
+            # labels not comparable, keep order of appearance
+            pass
+        if ... in symbol_map:
+            output.insert(0, ...)
+    eq += f"->{''.join(symbol_map[ix] for ix in output)}"
     return eq, arrays
 
 
